@@ -158,3 +158,17 @@ seed('c09-state-count-minus1', 'C09', [(SST_, "        h.state_count = states_.s
 seed('c09-fromreals-reverse', 'C09', [(SSP, "        *getValueAddressAtLocation(destination, locations[i]) = reals[i];", "        *getValueAddressAtLocation(destination, locations[i]) = reals[reals.size() - 1 - i];")], 'R09d')
 seed('c09-goal-sort-wrong-list', 'C09', [(PDATA, "            std::sort(goalVertexIndices_.begin(), goalVertexIndices_.end());", "            std::sort(startVertexIndices_.begin(), startVertexIndices_.end());")], 'R09g')
 seed('c09-n-reader-switch', 'C09', [(PDSH, "                    if (vertexData.type_ == PlannerDataVertexData::START_AND_GOAL)\n                    {\n                        pd.addStartVertex(*v);\n                        pd.markGoalState(state);\n                    }\n                    else if (vertexData.type_ == PlannerDataVertexData::START)\n                        pd.addStartVertex(*v);\n                    else if (vertexData.type_ == PlannerDataVertexData::GOAL)\n                        pd.addGoalVertex(*v);\n                    else\n                        pd.addVertex(*v);", "                    switch (vertexData.type_)\n                    {\n                        case PlannerDataVertexData::START_AND_GOAL:\n                            pd.addStartVertex(*v);\n                            pd.markGoalState(state);\n                            break;\n                        case PlannerDataVertexData::START:\n                            pd.addStartVertex(*v);\n                            break;\n                        case PlannerDataVertexData::GOAL:\n                            pd.addGoalVertex(*v);\n                            break;\n                        default:\n                            pd.addVertex(*v);\n                    }")], None)
+
+# ---- C08 -------------------------------------------------------------------------------------------------------
+RV = 'src/ompl/base/spaces/src/RealVectorStateSpace.cpp'
+SO2 = 'src/ompl/base/spaces/src/SO2StateSpace.cpp'
+UVS = 'src/ompl/base/samplers/src/UniformValidStateSampler.cpp'
+BTS = 'src/ompl/base/samplers/src/BridgeTestValidStateSampler.cpp'
+GVS = 'src/ompl/base/samplers/src/GaussianValidStateSampler.cpp'
+seed('c08-gaussian-noclamp', 'C08', [(RV, "        if (v < bounds.low[i])\n            v = bounds.low[i];\n        else if (v > bounds.high[i])\n            v = bounds.high[i];\n        rstate->values[i] = v;", "        rstate->values[i] = v;")], 'R08a')
+seed('c08-so2-near-noenforce', 'C08', [(SO2, "        near->as<SO2StateSpace::StateType>()->value - distance, near->as<SO2StateSpace::StateType>()->value + distance);\n    space_->enforceBounds(state);", "        near->as<SO2StateSpace::StateType>()->value - distance, near->as<SO2StateSpace::StateType>()->value + distance);")], 'R08a')
+seed('c08-clamp-onesided', 'C08', [(RV, "        if (rstate->values[i] > bounds_.high[i])\n            rstate->values[i] = bounds_.high[i];\n        else if (rstate->values[i] < bounds_.low[i])\n            rstate->values[i] = bounds_.low[i];", "        if (rstate->values[i] > bounds_.high[i])\n            rstate->values[i] = bounds_.high[i];")], 'R08b')
+seed('c08-valid-return-true', 'C08', [(UVS, "    } while (!valid && attempts < attempts_);\n    return valid;\n}\n\nbool ompl::base::UniformValidStateSampler::sampleNear", "    } while (!valid && attempts < attempts_);\n    return true;\n}\n\nbool ompl::base::UniformValidStateSampler::sampleNear")], 'R08c')
+seed('c08-bridge-no-recheck', 'C08', [(BTS, "                si_->getStateSpace()->interpolate(endpoint, state, 0.5, state);\n                valid = si_->isValid(state);", "                si_->getStateSpace()->interpolate(endpoint, state, 0.5, state);\n                valid = true;", 0)], 'R08c')
+seed('c08-gaussian-copy-wrong', 'C08', [(GVS, "            if (v2)\n                si_->copyState(state, temp);\n            result = true;", "            if (v1)\n                si_->copyState(state, temp);\n            result = true;", 0)], 'R08c')
+seed('c08-n-std-clamp', 'C08', [(RV, "        if (v < bounds.low[i])\n            v = bounds.low[i];\n        else if (v > bounds.high[i])\n            v = bounds.high[i];\n        rstate->values[i] = v;", "        rstate->values[i] = std::min(std::max(v, bounds.low[i]), bounds.high[i]);")], None)
